@@ -99,6 +99,8 @@ def run_case(case):
             c = net.add(n["addr"], n["kind"], n["addr"], mcu=n.get("mcu"))
             if not frag_on:
                 c.node.fragmentation = False
+            if n.get("mc_level") is not None:
+                c.node.multicast_level = n["mc_level"]  # listening for another level's multicasts must not change routing
         net.start()
         net.sim.advance(3 * MS)
         L = net.L
@@ -230,6 +232,10 @@ def _strategy():
                                                           "seed": st.integers(0, 9999), "poll": st.sampled_from([100, 500, 1000, 3000]),
                                                           "clk": st.sampled_from([2, 10, 40])}))
         nodes = [{"addr": a, "kind": "net" if a in full else draw(st.sampled_from(["router", "net"])), "mcu": draw(mcu)} for a in sorted(pop)]
+        if draw(st.integers(0, 3)) == 0:
+            for n in nodes:
+                if draw(st.booleans()):
+                    n["mc_level"] = draw(st.integers(0, 4))
         msgs = []
         for _ in range(draw(st.integers(1, 4))):
             s = draw(st.sampled_from(full))
